@@ -92,9 +92,27 @@ def plan(rng, tier):
     meths = ranges.MAP_METHS if mapping else ranges.SET_METHS
     n = rng.randint(30, 90) if tier == "quick" else rng.choice([60, 120, 250])
     slots = 0
+    # finalizer re-entry: fresh objects with a __del__ that reads the
+    # container are stored where nothing else references them, so they die
+    # inside the operation that drops them
+    # (transient containers only: what a finalizer may observe while the
+    # persistence machinery evicts or invalidates the very node it is
+    # re-entering is not defined by `persistent` itself -- see DESIGN 10)
+    fin = None
+    if not cfg["stored"] and rng.random() < 0.45 and (
+            (mapping and fam[1] == "O") or (fam[0] == "O" and hk)):
+        fin = rng.choice(["len", "list", "contains", "get", "minmax",
+                          "mixed", "mixed"])
     for _ in range(n):
         r = rng.random()
-        if r < 0.08:
+        if fin and r < 0.14:
+            if mapping and fam[1] == "O" and (not (fam[0] == "O" and hk)
+                                              or rng.random() < 0.6):
+                op = ["setfv", g.anykey()]
+            else:
+                op = [rng.choice(["addfk", "addfk", "delfk"]),
+                      rng.randrange(dom.nkeys)]
+        elif r < 0.08:
             op = ranges._range_op(rng, g, meths)
         elif r < 0.12:
             b = ranges._bound(rng, g, allow_special=False)
@@ -158,10 +176,16 @@ def plan(rng, tier):
                 out.append(["sweep", rng.choice(["minimize", "incrgc",
                                                  "some"]),
                             rng.randrange(1 << 16)])
-    return {"cfg": cfg, "ops": out}
+    return {"cfg": cfg, "ops": out, "fin": fin}
 
 
 def simplify(plan):
+    if plan.get("fin"):
+        p = copy.deepcopy(plan)
+        p["fin"] = None
+        p["ops"] = [o for o in p["ops"]
+                    if o[0] not in ("setfv", "addfk", "delfk")]
+        yield p
     if plan["cfg"]["stored"]:
         p = copy.deepcopy(plan)
         p["cfg"]["stored"] = False
@@ -300,6 +324,22 @@ def _do(c, op, dom, kind, seqs, live):
                 r = c - other
             len(r)
             return "ok"
+        if name == "setfv":
+            # (the FV is referenced by the container only)
+            c[dom.key(op[1])] = keys.FV(op[1])
+            return "ok"
+        if name in ("addfk", "delfk"):
+            k = keys.FK(op[1] + 0.5)
+            if is_mapping(kind):
+                if name == "addfk":
+                    c[k] = dom.val(0)
+                else:
+                    c.pop(k, None)
+            elif name == "addfk":
+                c.add(k)
+            else:
+                c.discard(k)
+            return "ok"
         if name == "hostile":
             try:
                 _do_hostile(c, op, dom, kind)
@@ -376,6 +416,50 @@ def execute(plan, ctx):
         conn.add(c)
     seqs = {}
     live = [(c, mapping)]
+    fin = plan.get("fin")
+    fv0, fk0 = keys.FV.live, keys.FK.live
+    keys.FINAL.fired = 0
+    keys.FINAL.notes = []
+    if fin:
+        box = [c]
+
+        def _reenter(obj, box=box, fin=fin):
+            cc = box[0]
+            if cc is None:
+                return
+            if is_tree(kind):
+                # the package's own checker first: it reads defensively,
+                # whereas searches assume a sound tree (no empty leaf) and
+                # would leave defined behaviour on a tree that is not
+                try:
+                    cc._check()
+                except AssertionError as e:
+                    keys.FINAL.notes.append(str(e)[:60])
+                    return
+            act = fin
+            if act == "mixed":
+                act = ("len", "list", "contains", "get", "minmax")[
+                    int(obj.n * 2) % 5]
+            probe = dom.key(int(obj.n) % dom.nkeys)
+            if act == "len":
+                len(cc)
+                bool(cc)
+            elif act == "list":
+                list(cc.items() if mapping else cc.keys())
+            elif act == "contains":
+                probe in cc
+            elif act == "get":
+                if mapping:
+                    cc.get(probe)
+                else:
+                    cc.has_key(probe)
+            else:
+                try:
+                    cc.minKey()
+                    cc.maxKey(probe)
+                except ValueError:
+                    pass
+        keys.FINAL.action = _reenter
     try:
         for op0 in plan["ops"]:
             name = op0[0]
@@ -425,6 +509,15 @@ def execute(plan, ctx):
             opn = op[0] if op[0] != "mod" else op[1]
             if opn == "binop":
                 opn = "op" + op[1]
+            if keys.FINAL.notes:
+                note = keys.FINAL.notes[0]
+                keys.FINAL.notes = []
+                raise Violation(
+                    dict(base, oracle="reentry-unsound", op=opn,
+                         saw=note.split(":")[0][:40]),
+                    "a stored object released inside %r ran its __del__, "
+                    "which looked at the container again and found it "
+                    "damaged: _check() -> %s" % (op, note))
             if opn == "hostile":
                 opn = "hostile:%s:%s" % (op[1], op[3])
                 ctx.fault("hostile-operand")
@@ -446,6 +539,10 @@ def execute(plan, ctx):
             ctx.nontriv((kind, famc, bool(stored), opn, out))
             ctx.interleaving((opn, out, bool(fired)))
         # ---- quiescence
+        if fin:
+            if keys.FINAL.fired:
+                ctx.fault("finalizer-reentry", keys.FINAL.fired)
+            box[0] = None       # (never touch a container being torn down)
         seqs.clear()
         live = None
         c = None
@@ -473,5 +570,12 @@ def execute(plan, ctx):
                 "at quiescence %d HK and %d TV instances are alive, %d and "
                 "%d expected (objects created by loads or copies were never "
                 "released)" % (keys.HK.live, keys.TV.live, hk0, tv0))
+        if keys.FV.live != fv0 or keys.FK.live != fk0:
+            raise Violation(
+                dict(sig, what="live-instances",
+                     obj="FV" if keys.FV.live != fv0 else "FK"),
+                "at quiescence %d FV and %d FK instances are alive, %d and "
+                "%d expected" % (keys.FV.live, keys.FK.live, fv0, fk0))
     finally:
         hook.reset()
+        keys.FINAL.action = None
